@@ -35,6 +35,21 @@ CHECKS = {
              "excused only as a consequence of an open C01 finding (first pass changed the structure AND the finding's trigger is present).",
         technique="TLA+ model checking (TLC) of the renderer/reader composition + two-pass replay + trace validation (IdemTrace.tla)",
         design="§6 C02, §12"),
+    "C04": dict(
+        level="model_checking",
+        text="spec/Code.tla models _render_code / _min_fence_length: every code block (fence ` or ~, length 3/4 or indented, three info-string "
+             "shapes, content lines over 11 kinds incl. blank lines, prefix look-alikes and fence look-alikes of either character) under 6 "
+             "container paths, one action per emitted line; TLC checks ContentVerbatim, BlankNoTrailing, FenceAdequate and FenceKept in every "
+             "state. Every block is concretised in its container, formatted by the real reformat_text under typography options, the output "
+             "block abstracted back to line records and validated by spec/CodeTrace.tla against the machine and the predicates. A second "
+             "family embeds 25 kinds of inline non-prose span (code spans with backticks/spaces/quotes/dots, template tags, comments, inline "
+             "HTML, autolinks, bare URLs, links/images with destinations and titles, reference and footnote labels) at several positions of a "
+             "wrapping paragraph x widths x typography on/off x wrap mode x containers; TLC compares the ordered literal-span sequences of "
+             "input and output (same extractor: real marko parse + tag/comment scanner).",
+        note="Trusted: harness abstraction of output code blocks, marko as the reader of literal spans. Inline family is a fixed construct "
+             "list (not exhaustive).",
+        technique="TLA+ model checking (TLC) of Code.tla + replay + trace validation (CodeTrace.tla, sequence equality in DocTrace.tla)",
+        design="§6 C04, §12"),
     "C05": dict(
         level="model_checking",
         text="TLC explores every behaviour of the implementation-shaped greedy-fill machine (spec/Wrap.tla) within "
